@@ -10,6 +10,9 @@
 //! `kani::any()` calls - which is what concrete playback reports - is the same in both modes.
 
 #![allow(clippy::missing_safety_doc)]
+#![allow(static_mut_refs)]
+
+pub mod obs;
 
 pub trait Nd: Sized {
     fn nd() -> Self;
